@@ -82,7 +82,13 @@ def decode_cs0(raw):
         return ''.join(chr(b) for b in body), True
     if cid == 16:
         units = [(body[i] << 8) | body[i + 1] for i in range(0, len(body) - 1, 2)]
-        return ''.join(chr(u) for u in units), len(body) % 2 == 0
+        # 16-bit units; UDF 2.60 (2.1.1) lets them be UTF-16, so a surrogate pair is one character
+        text = ''.join(chr(u) for u in units)
+        try:
+            text = text.encode('utf-16-be', 'surrogatepass').decode('utf-16-be')
+        except UnicodeDecodeError:
+            pass
+        return text, len(body) % 2 == 0
     return ''.join(chr(b) for b in body), False
 
 
